@@ -1,5 +1,6 @@
 /- Shared parsing for the environment-machine drivers (C01 C08 C09 C10). -/
 import ControlModel.Model.Env
+import ControlModel.Model.CallWays
 import ControlModel.Spec.EnvTrace
 
 namespace Driver.EnvCommon
@@ -15,18 +16,31 @@ def parseMoment (s : String) : Option Moment :=
   else if s.startsWith "never_" then ((s.drop 6).toString.toNat?).map .never
   else none
 
-def parseHook : SExp → Option Hook
+/-- One entry of a hook's script: `0` / `1` as ever (`1` = the plugin writes `__call_error`), or the
+    name of the way this execution of a call hook fails (Model/CallWays.lean, harness/envh/ways.go). -/
+def parseOutcome : SExp → Option Outcome
+  | .atom s =>
+    match SExp.bool? (.atom s) with
+    | some false => some .ok
+    | some true => some (.fail .callError)
+    | none => (Way.parse? s).map .fail
+  | _ => none
+
+def parseKHook : SExp → Option KHook
   | .list [id, .atom kind, crit, .atom tm, tw, .atom am, aw, .list outs] => do
+    let os ← outs.mapM? parseOutcome
+    -- a named way is for call hooks
+    if kind == "task" && os.any (fun o => o != .ok && o != .fail .callError) then none
     pure { id := ← id.nat?, isTask := kind == "task", critical := ← crit.bool?,
            trig := ← parseMoment tm, tw := ← tw.int?, await := ← parseMoment am, aw := ← aw.int?,
-           outcomes := ← outs.mapM? SExp.bool? }
+           outcomes := os }
   -- with the call's own `timeout` (ms) and the probe's duration (ms): parsed and dropped — neither has
   -- any effect in the model, as neither has in the core (the result of a call is collected at its await
   -- point whenever the call finishes; the timeout is only handed to the plugin)
   | .list [id, kind, crit, tm, tw, am, aw, outs, timeout, dur] => do
     let _ ← timeout.nat?
     let _ ← dur.nat?
-    parseHook (.list [id, kind, crit, tm, tw, am, aw, outs])
+    parseKHook (.list [id, kind, crit, tm, tw, am, aw, outs])
   | _ => none
 
 def parseReq : SExp → Option Req
@@ -45,9 +59,14 @@ def parsePReq : SExp → Option PReq
   | q => (parseReq q).map .one
 
 structure Input where
-  hooks : List Hook
+  khooks : List KHook        -- as given: the script of a call hook may name the way an execution fails
   preqs : List PReq          -- as given: single requests and overlapping pairs `(P q1 q2)`
   nTasks : Nat
+
+/-- The hooks as the environment machine sees them: per execution, whether `(*Call).Call()` returns an
+    error — by the exit logic of the code as it is (`codeCall`, tied to the source by
+    `C09_call_exits_are_code`). For scripts of 0 / 1 this is the script itself. -/
+def Input.hooks (i : Input) : List Hook := i.khooks.map (KHook.toHook codeCall)
 
 /-- The requests in the order in which they get the mutex. -/
 def Input.reqs (i : Input) : List Req := (i.preqs.map PReq.flat).flatten
@@ -55,7 +74,7 @@ def Input.reqs (i : Input) : List Req := (i.preqs.map PReq.flat).flatten
 def parseInput (s : String) : Option Input :=
   match SExp.parse s with
   | some (.list [.list hs, .list qs, n]) => do
-    pure { hooks := ← hs.mapM? parseHook, preqs := ← qs.mapM? parsePReq, nTasks := ← n.nat? }
+    pure { khooks := ← hs.mapM? parseKHook, preqs := ← qs.mapM? parsePReq, nTasks := ← n.nat? }
   | _ => none
 
 def parseTV : SExp → Option TV
@@ -89,6 +108,8 @@ def parseIEv : SExp → Option IEv
   | .list [.atom "M", .atom n, .atom f] => some (.mark n (f == "f"))
   | .list [.atom "XS", h, k] => do pure (.xs (← h.nat?) (← k.nat?))
   | .list [.atom "XE", h, k, f, v, .atom st] => do pure (.xe (← h.nat?) (← k.nat?) (← f.bool?) (← parseVars v) st)
+  -- an execution that failed in a named way: the name is read by `parseWays` below, the record is the same
+  | .list [.atom "XE", h, k, f, v, .atom st, .atom _] => do pure (.xe (← h.nat?) (← k.nat?) (← f.bool?) (← parseVars v) st)
   | .list (.atom "H" :: is) => do
     let is ← is.mapM? fun
       | .list [h, k, f] => do pure ((← h.nat?), (← k.nat?), (← f.bool?))
@@ -102,6 +123,7 @@ def parseIEv : SExp → Option IEv
       | _ => none
     pure (.reqEnd (← parseRes res) st (← rn.nat?) (← parseVars v) ps (← g.bool?))
   | .list [.atom "Q", n] => do pure (.quiesce (← n.nat?))
+  | .list [.atom "OV", .atom how, .atom a, .atom b] => some (.overlap how a b)
   | _ => none
 
 def parseTrace (s : String) : Option ITrace :=
@@ -109,9 +131,19 @@ def parseTrace (s : String) : Option ITrace :=
   | some (.list es) => es.mapM? parseIEv
   | _ => none
 
-/-- Common line handler: `spec` judges the observed trace for one property and
+/-- The way each probe execution of the trace failed: `(hook, k, fails, way)` per XE record, in trace
+    order; way `1` when the record names none. -/
+def parseWays (s : String) : List (Nat × Nat × Bool × String) :=
+  match SExp.parse s with
+  | some (.list es) => es.filterMap fun
+    | .list [.atom "XE", h, k, f, _, _] => do pure ((← h.nat?), (← k.nat?), (← f.bool?), "1")
+    | .list [.atom "XE", h, k, f, _, _, .atom w] => do pure ((← h.nat?), (← k.nat?), (← f.bool?), w)
+    | _ => none
+  | _ => []
+
+/-- Common line handler: `spec` judges the observed trace (also given as text) for one property and
     names the excluded hypothesis (known finding) the input falls under, if any. -/
-def processWith (spec : Input → ITrace → Bool × String) (line : String) : String :=
+def processWithRaw (spec : Input → ITrace → String → Bool × String) (line : String) : String :=
   match SExp.fields line with
   | [inp, impl] =>
     match parseInput inp with
@@ -125,8 +157,11 @@ def processWith (spec : Input → ITrace → Bool × String) (line : String) : S
         let verdict := match monitorPar i.hooks i.nTasks i.preqs tr with
           | none => "ACCEPT"
           | some why => "REJECT:" ++ (why.replace "\t" " ").replace "\n" " "
-        let (ok, hyp) := spec i tr
+        let (ok, hyp) := spec i tr impl
         s!"{verdict}\t{if ok then 1 else 0}\t{hyp}"
   | _ => "BADLINE\t0\t-"
+
+def processWith (spec : Input → ITrace → Bool × String) (line : String) : String :=
+  processWithRaw (fun i tr _ => spec i tr) line
 
 end Driver.EnvCommon
